@@ -383,6 +383,8 @@ class C17(Check):
                 n += int(t[2])
             elif t[0] in ('hmacfill', 'hmacfillx'):
                 n += int(t[2]) + int(t[4])
+            elif t[0] == 'threads':                      # all threads' bytes over all rounds, as if run one after the other
+                n += int(t[2]) * sum(len(x) // 2 for x in t[4:] if x != '-')
         return 10 + n // 4000000
 
     def run_impl(self, cases, tag='impl'):
